@@ -19,7 +19,9 @@ inductive Op where
   | unbind (w : Id) (id : Int)
   | key
   | mouse (m : Mouse)
-  | pen | pref (k : Nat) | punref (k : Nat) | pset (k : Nat)
+  | pen | pref (k : Nat) | punref (k : Nat) | pset (k : Nat) (val : Int)
+  | pdesc (k : Nat) (desc : List UInt8) | pcopy (d s : Nat) (overwrite : Bool) | pcopyattr (d s : Nat)
+  | pbind (k : Nat) (acts : List PAct) | punbind (k : Nat) (id : Int)
   | setpen (w : Id) (p : Option Nat)
   | tref | tunref
   | str (bytes : List UInt8) | sref (k : Nat) | sunref (k : Nat) | sget (k : Nat)
@@ -42,6 +44,7 @@ deriving Repr, Inhabited
     `end` is covered by `all_released`). -/
 def Op.plain : Op → Bool
   | .focus _ | .key | .mouse _ | .mdisp .. | .«end» => false
+  | .pset .. | .pdesc .. | .pcopy .. | .pcopyattr .. | .pbind .. | .punbind .. => false
   | .btext .. | .berase .. | .bskip .. | .bchar .. | .bhline .. | .bclear _ => false
   | _ => true
 
@@ -172,7 +175,7 @@ def step (cfg : Cfg) (st : St) : Op → Out (St × String)
   | .unbind w id => if !usableW st w then skipR st else okR (unbindEvent st w id)
   | .key => if !heldT st then skipR st else okR (emitKey cfg st)
   | .mouse m => if !heldT st then skipR st else okR (emitMouse cfg st m)
-  | .pen => pure ({ st with pens := st.pens.push {} }, "ok")
+  | .pen => pure ({ st with pens := st.pens.push {}, penx := (st.penx ++ Array.replicate (st.pens.size - st.penx.size) ({} : PenX)).push {} }, "ok")
   | .pref k =>
     if !heldP st k then skipR st
     else
@@ -183,7 +186,25 @@ def step (cfg : Cfg) (st : St) : Op → Out (St × String)
     else
       let p := st.pens[k]?.getD {}
       okR (penUnref { st with pens := st.pens.setIfInBounds k { p with appRefs := p.appRefs - 1 } } k)
-  | .pset k => if !heldP st k then skipR st else pure (st, "ok")
+  | .pset k val => if !heldP st k then skipR st else okR (penSetColour st k val)
+  | .pdesc k desc =>
+    if !heldP st k then skipR st
+    else match penSetDesc st k desc with
+      | none => pure (st, "unsupported-desc")
+      | some r => do
+        let (st, acc) ← r
+        pure (st, if acc then "ret=1" else "ret=0")
+  | .pcopy d s ow => if !heldP st d || !heldP st s then skipR st else okR (penCopy cfg.penCopyKeepsSrc st d s ow)
+  | .pcopyattr d s => if !heldP st d || !heldP st s then skipR st else okR (penCopyAttr st d s)
+  | .pbind k acts =>
+    if !heldP st k then skipR st
+    else
+      let x := getPX st k
+      let id := x.binds.foldl (fun m b => if b.id > m then b.id else m) (0 : Int) + 1
+      pure (setPX st k { x with binds := x.binds ++ [{ id := id, acts := acts }] }, s!"id={id}")
+  | .punbind k id =>
+    if !heldP st k then skipR st
+    else pure (setPX st k { getPX st k with binds := (getPX st k).binds.filter (fun b => b.id ≠ id) }, "ok")
   | .setpen w p =>
     if !usableW st w then skipR st
     else match p with
